@@ -1,4 +1,332 @@
+/-
+  C19 — generate never crashes or hangs, whatever bytes it is given.
+
+  * No hang: every function of the model is total (structural recursion or explicit fuel that is shown
+    sufficient where it matters); Lean's termination checker accepted the model.
+  * No runtime fault: every Go index/slice expression of the modelled code is a guarded operation in the
+    model that yields `Fault.runtime` when out of range; the theorems below show that value is unreachable.
+
+  The regex engine is a parameter. What is assumed of it (and monitored by the harness on every Join
+  result): its output is balanced — every unescaped `(` has its `)`, which is how Go's printer writes
+  groups and escapes literal parentheses — and it answers every query (`Engine.Total`).
+-/
 import Crs.Assemble
+import CrsProofs.PassesBal
 namespace Crs.Props
-theorem C19_placeholder : True := trivial
+open Crs Crs.Passes Crs.Asm
+
+/-- the engine's printer writes balanced text, and the engine answers (ok or parse error) every query -/
+structure EngineShape (E : Engine) : Prop where
+  balanced : ∀ q r, E.join q = .ok r → Balanced r
+  total : ∀ q e, E.join q = .error e → e = .diag
+
+/-- a result that is not a runtime fault -/
+def NoRuntime {α} (r : Except Fault α) : Prop := r ≠ .error .runtime
+
+/-- **C19 (group scanning).** On balanced text — in particular text in which an escaped parenthesis is followed
+    by `?i:` — the clean-up passes (hex/quote/backslash re-spelling, vertical-tab inclusion, flag-group removal
+    with `findGroupBodyEnd`/`removeGroup`, outermost-group removal) never index out of range. -/
+theorem C19_cleanUp_total (s : Bytes) (h : Balanced s) : ∃ out, cleanUp s = .ok out :=
+  cleanUp_balanced s h
+
+/-- the witness of the repaired defect D04: an optional literal parenthesis followed by `i:foo` is ordinary text -/
+theorem C19_escaped_paren_is_text :
+    cleanUp "a\\(?i:foo".toList = .ok "a\\(?i:foo".toList ∧ cleanUp "(a\\(?i)b".toList = .ok "(a\\(?i)b".toList := by
+  decide +kernel
+
+/-! ### the processors never produce a runtime fault -/
+
+private theorem join_nr (E : Engine) (hE : EngineShape E) (q : List Bytes) : NoRuntime (E.join q) := by
+  intro h; have := hE.total q _ h; simp at this
+
+private theorem runAssemble_nr (E : Engine) (hE : EngineShape E) (ls : List Bytes) : NoRuntime (runAssemble E ls) := by
+  unfold runAssemble
+  split
+  · simp [NoRuntime]
+  · cases h : E.join ls with
+    | ok r => simp [NoRuntime]
+    | error e => have := hE.total ls e h; subst this; simp [NoRuntime]
+
+private theorem appendPlain_nr (E : Engine) (hE : EngineShape E) (ls : List Bytes) (o : Bytes) : NoRuntime (appendPlain E ls o) := by
+  unfold appendPlain
+  simp only
+  split
+  · rename_i e he
+    split at he
+    · rename_i l
+      cases hj : E.join [l] with
+      | ok r => rw [hj] at he; simp at he
+      | error e' =>
+        have := hE.total [l] e' hj; subst this
+        rw [hj] at he; simp at he
+    · simp at he
+  · rename_i ls' o' _
+    have := runAssemble_nr E hE ls'
+    cases h : runAssemble E ls' with
+    | ok p => simp [NoRuntime]
+    | error e => rw [h] at this; intro hh; simp only [Except.error.injEq] at hh; exact this (by rw [hh])
+
+private theorem assembleLine_nr (E : Engine) (hE : EngineShape E) (st : Stash) (ls : List Bytes) (o l : Bytes) :
+    NoRuntime (assembleLine E st ls o l) := by
+  unfold assembleLine
+  have hap := appendPlain_nr E hE ls o
+  split
+  · split
+    · simp [NoRuntime]
+    · cases h : appendPlain E ls o with
+      | ok p => simp [NoRuntime]
+      | error e => rw [h] at hap; intro hh; simp only [Except.error.injEq] at hh; exact hap (by rw [hh])
+  · split
+    · cases h : appendPlain E ls o with
+      | ok p =>
+        simp only
+        split
+        · simp [NoRuntime]
+        · split <;> simp [NoRuntime]
+      | error e => rw [h] at hap; intro hh; simp only [Except.error.injEq] at hh; exact hap (by rw [hh])
+    · simp [NoRuntime]
+
+private theorem procLine_nr (E : Engine) (hE : EngineShape E) (cfg : Config) (st : Stash) (p : Proc) (l : Bytes) :
+    NoRuntime (procLine E cfg st p l) := by
+  unfold procLine
+  cases p with
+  | assemble ls o =>
+    simp only
+    have := assembleLine_nr E hE st ls o l
+    cases h : assembleLine E st ls o l with
+    | ok r => simp [NoRuntime]
+    | error e => rw [h] at this; intro hh; simp only [Except.error.injEq] at hh; exact this (by rw [hh])
+  | cmdline sh ls => simp only; split <;> simp [NoRuntime]
+
+private theorem procComplete_nr (E : Engine) (hE : EngineShape E) (p : Proc) : NoRuntime (procComplete E p) := by
+  unfold procComplete
+  cases p with
+  | assemble ls o =>
+    simp only
+    have := runAssemble_nr E hE ls
+    cases h : runAssemble E ls with
+    | ok r => simp [NoRuntime]
+    | error e => rw [h] at this; intro hh; simp only [Except.error.injEq] at hh; exact this (by rw [hh])
+  | cmdline sh ls =>
+    simp only
+    cases h : E.join ls with
+    | ok r => simp [NoRuntime]
+    | error e => have := hE.total ls e h; subst this; simp [NoRuntime]
+
+private theorem procConsume_nr (E : Engine) (hE : EngineShape E) (cfg : Config) (st : Stash) (p : Proc) (ls : List Bytes) :
+    NoRuntime (procConsume E cfg st p ls) := by
+  induction ls generalizing st p with
+  | nil => simp [procConsume, NoRuntime]
+  | cons l ls ih =>
+    cases p with
+    | cmdline sh lines => simp only [procConsume]; exact ih _ _
+    | assemble a b =>
+      simp only [procConsume]
+      have := procLine_nr E hE cfg st (.assemble a b) l
+      cases h : procLine E cfg st (.assemble a b) l with
+      | ok r => simp only; exact ih _ _
+      | error e => rw [h] at this; intro hh; simp only [Except.error.injEq] at hh; exact this (by rw [hh])
+
+/-- the processor stack is never empty while lines are processed: `processorStack.top()` cannot fail there -/
+private theorem runLines_nr (E : Engine) (hE : EngineShape E) (cfg : Config) (st : Stash) (stack : List Proc) (hs : stack ≠ [])
+    (ls : List Bytes) : NoRuntime (runLines E cfg st stack ls) := by
+  induction ls generalizing st stack with
+  | nil => simp [runLines, NoRuntime]
+  | cons l ls ih =>
+    cases stack with
+    | nil => exact absurd rfl hs
+    | cons cur below =>
+      simp only [runLines]
+      split
+      · split
+        · exact ih _ _ (by simp)
+        · split
+          · split
+            · exact ih _ _ (by simp)
+            · split
+              · exact ih _ _ (by simp)
+              · simp [NoRuntime]
+          · simp [NoRuntime]
+      · split
+        · have hc := procComplete_nr E hE cur
+          cases h : procComplete E cur with
+          | error e => rw [h] at hc; intro hh; simp only [Except.error.injEq] at hh; exact hc (by rw [hh])
+          | ok lines =>
+            simp only
+            cases below with
+            | nil => simp [NoRuntime]
+            | cons parent below' =>
+              simp only
+              have hp := procConsume_nr E hE cfg st parent lines
+              cases h2 : procConsume E cfg st parent lines with
+              | error e => rw [h2] at hp; intro hh; simp only [Except.error.injEq] at hh; exact hp (by rw [hh])
+              | ok r => simp only; exact ih _ _ (by simp)
+        · have hp := procLine_nr E hE cfg st cur l
+          cases h : procLine E cfg st cur l with
+          | error e => rw [h] at hp; intro hh; simp only [Except.error.injEq] at hh; exact hp (by rw [hh])
+          | ok r => simp only; exact ih _ _ (by simp)
+
+private theorem feedLines_nr (E : Engine) (hE : EngineShape E) (st : Stash) (ls : List Bytes) (o : Bytes) (lines : List Bytes) :
+    NoRuntime (feedLines E st ls o lines) := by
+  induction lines generalizing st ls o with
+  | nil => simp [feedLines, NoRuntime]
+  | cons l rest ih =>
+    simp only [feedLines]
+    have := assembleLine_nr E hE st ls o l
+    cases h : assembleLine E st ls o l with
+    | error e => rw [h] at this; intro hh; simp only [Except.error.injEq] at hh; exact this (by rw [hh])
+    | ok r => simp only; exact ih _ _ _
+
+private theorem finalPass_nr (E : Engine) (hE : EngineShape E) (st : Stash) (lines : List Bytes) : NoRuntime (finalPass E st lines) := by
+  unfold finalPass
+  have hfeed := feedLines_nr E hE st [] [] lines
+  cases hf : feedLines E st [] [] lines with
+  | error e => rw [hf] at hfeed; simp only; intro hh; simp only [Except.error.injEq] at hh; exact hfeed (by rw [hh])
+  | ok p =>
+    obtain ⟨ls, out⟩ := p
+    simp only
+    have hpc := procComplete_nr E hE (.assemble ls out)
+    cases hc : procComplete E (.assemble ls out) with
+    | error e => rw [hc] at hpc; simp only; intro hh; simp only [Except.error.injEq] at hh; exact hpc (by rw [hh])
+    | ok res => simp [NoRuntime]
+
+/-- the simplification join and the clean-up passes produce no runtime fault: the engine's text is balanced -/
+private theorem finish_nr (E : Engine) (hE : EngineShape E) (fl : List Char) (text : Bytes) : NoRuntime (finish E fl text) := by
+  unfold finish
+  split
+  · simp [NoRuntime]
+  · cases hj : E.join [text] with
+    | error e => have := hE.total _ e hj; subst this; simp [NoRuntime]
+    | ok simplified =>
+      simp only
+      obtain ⟨o, ho⟩ := cleanUp_balanced simplified (hE.balanced _ _ hj)
+      rw [ho]
+      simp [NoRuntime]
+
+private theorem complete_nr (E : Engine) (hE : EngineShape E) (st : Stash) (fl : List Char) (pf sf : List Bytes) (lines : List Bytes) :
+    NoRuntime (complete E st fl pf sf lines) := by
+  unfold complete
+  have h1 := finalPass_nr E hE st lines
+  cases hf : finalPass E st lines with
+  | error e => rw [hf] at h1; simp only; intro hh; simp only [Except.error.injEq] at hh; exact h1 (by rw [hh])
+  | ok r => simp only; exact finish_nr E hE fl _
+
+/-! ### the parser never produces a runtime fault -/
+
+private theorem nr_of_error {α β} {r : Except Fault α} (h : NoRuntime r) {e : Fault} (he : r = .error e) :
+    NoRuntime (Except.error e : Except Fault β) := by
+  intro hh
+  simp only [Except.error.injEq] at hh
+  subst hh
+  exact h he
+
+open Crs.Parser in
+private theorem parse_nr (fs : Fs) (o1 o2 : Ord) (fuel : Nat) : ∀ v c, NoRuntime (parse fs o1 o2 fuel v c) := by
+  induction fuel with
+  | zero => intro v c; simp [parse, NoRuntime]
+  | succ f ih =>
+    have hFile : ∀ name defs, NoRuntime (parseFile fs o1 o2 f name defs) := by
+      intro name defs
+      simp only [parseFile]
+      split
+      · simp [NoRuntime]
+      · rename_i contents _
+        cases hp : parse fs o1 o2 f defs contents with
+        | error e => (try simp only); exact nr_of_error (ih defs contents) hp
+        | ok st => simp only; split <;> simp [NoRuntime]
+    have hExcl : ∀ names defs, NoRuntime (exclusions fs o1 o2 f defs names) := by
+      intro names
+      induction names with
+      | nil => intro defs; simp [exclusions, NoRuntime]
+      | cons n ns ihn =>
+        intro defs
+        simp only [exclusions]
+        cases hp : parseFile fs o1 o2 f n defs with
+        | error e => (try simp only); exact nr_of_error (hFile n defs) hp
+        | ok r =>
+          (try simp only)
+          cases hx : exclusions fs o1 o2 f r.2 ns with
+          | error e => (try simp only); exact nr_of_error (ihn r.2) hx
+          | ok more => simp [NoRuntime]
+    have hLines : ∀ ls st, NoRuntime (parseLines fs o1 o2 f st ls) := by
+      intro ls
+      induction ls with
+      | nil => intro st; simp [parseLines, NoRuntime]
+      | cons l rest ihl =>
+        intro st
+        simp only [parseLines]
+        split
+        · exact ihl _
+        · split
+          · exact ihl _
+          · split
+            · exact ihl _
+            · split
+              · -- include
+                split
+                · simp [NoRuntime]
+                · split
+                  · rename_i hp; exact nr_of_error (hFile _ _) hp
+                  · exact ihl _
+              · split
+                · -- include-except
+                  split
+                  · simp [NoRuntime]
+                  · split
+                    · rename_i hp; exact nr_of_error (hFile _ _) hp
+                    · split
+                      · rename_i hx; exact nr_of_error (hExcl _ _) hx
+                      · exact ihl _
+                · split
+                  · split
+                    · exact ihl _
+                    · simp [NoRuntime]
+                  · split
+                    · exact ihl _
+                    · split
+                      · exact ihl _
+                      · exact ihl _
+    intro v c
+    simp only [parse]
+    cases hp : parseLines fs o1 o2 f { vars := v } (scanLines c) with
+    | error e => (try simp only); exact nr_of_error (hLines _ _) hp
+    | ok st => simp only; split <;> simp [NoRuntime]
+
+/-- **C19 (no runtime fault).** For every input text, every set of include files, every configuration and
+    every iteration order of the definition map, `generate` ends with a regular expression or a deliberate
+    diagnostic — never with an out-of-range index or an empty processor stack — provided the engine prints
+    balanced text and answers every query. -/
+theorem C19_generate_no_runtime_fault (E : Engine) (hE : EngineShape E) (fs : Parser.Fs) (cfg : Config)
+    (o1 o2 : Parser.Ord) (input : Bytes) :
+    generate E fs cfg o1 o2 input ≠ .error .runtime := by
+  unfold generate
+  have hp := parse_nr fs o1 o2 Parser.defaultFuel [] input
+  cases hpe : Parser.parse fs o1 o2 Parser.defaultFuel [] input with
+  | error e => simp only; exact nr_of_error (β := Bytes) hp hpe
+  | ok st =>
+    simp only
+    have hr := runLines_nr E hE cfg [] [.assemble [] []] (by simp) (scanLines st.out)
+    cases hre : runLines E cfg [] [.assemble [] []] (scanLines st.out) with
+    | error e => simp only; exact nr_of_error (β := Bytes) hr hre
+    | ok r =>
+      obtain ⟨stash, stack⟩ := r
+      simp only
+      cases stack with
+      | nil => simp
+      | cons top below =>
+        simp only
+        have hc := procComplete_nr E hE top
+        cases hce : procComplete E top with
+        | error e => simp only; exact nr_of_error (β := Bytes) hc hce
+        | ok lines =>
+          simp only
+          have hk := complete_nr E hE stash st.flags st.prefixes st.suffixes lines
+          cases hke : complete E stash st.flags st.prefixes st.suffixes lines with
+          | error e => simp only; exact nr_of_error (β := Bytes) hk hke
+          | ok out => simp only; split <;> simp
+
+/-- the theorem is not vacuous: a trivially shaped engine (alternatives joined by `|` are balanced when
+    every alternative is) exists for balanced entries; here, the degenerate engine that rejects everything -/
+example : EngineShape ⟨fun _ => .error .diag⟩ := ⟨by intro q r h; simp at h, by intro q e h; simp at h; exact h.symm⟩
+
 end Crs.Props
